@@ -6,8 +6,17 @@ unregisters its waiter. That R/W/D goroutines actually exit is observed on cycle
 -/
 import OAP.Model.Client.SingleFlight
 import OAP.Proofs.Waiters
+import OAP.Gen.Facts
 namespace OAP.C16
 open OAP
+
+/-- T2 structure facts, regenerated from go/client on every run (the operations themselves, in source order): the dispatcher of a conn waits on the close signal AND the queue, drains on close, reports the final error once and exits; Do defers its unregister -/
+theorem source_order :
+    Gen.seq_tcpConn_OnPacket = ["conn.onPacketOnce.Do", "go", "select", "recv:conn.closeCh", "select", "recv:conn.packetCh", "fn", "default", "fn", "recv:conn.packetCh", "fn"] ∧
+    Gen.seq_wsConn_OnPacket = ["conn.onPacketOnce.Do", "go", "select", "recv:conn.closeCh", "select", "recv:conn.packetCh", "fn", "default", "fn", "recv:conn.packetCh", "fn"] ∧
+    Gen.seq_client_Do = ["c.RLock", "defer:c.RUnlock", "protocol.NewRequest", "c.register", "defer:c.unregister", "conn.Write", "c.recv"] := by
+  decide
+
 
 /-- at most one retry goroutine, whatever the number of losses and notifiers -/
 theorem bounded_recovery_threads (acts : List SingleFlight.Act) (s : SingleFlight.St)
@@ -23,7 +32,14 @@ theorem one_recovery_per_loss (acts : List SingleFlight.Act) (s : SingleFlight.S
 /-- WAITERS RELEASED: in every reachable state the table only holds calls that are still in flight: every exit path
 of a request call (response, closed, deadline, write error) has removed its own entry -/
 theorem waiters_released (s : Waiters.St) (hs : Waiters.Reachable s) (r i c : Nat) (h : s.recvs r = some (i, c)) :
-    s.call i = .registered c r ∨ s.call i = .written c r :=
+    s.call i = .registered c r ∨ s.call i = .written c r ∨ ∃ res, s.call i = .returning c r res :=
   (Waiters.inv_reachable s hs).tab r i c h
+
+/-- … and the deferred unregister of a returning call is always enabled and removes its entry -/
+theorem returning_unregisters (s : Waiters.St) (i c r : Nat) (res : Option Waiters.Pkt) (h : s.call i = .returning c r res)
+    (ht : s.recvs r = some (i, c)) :
+    ∃ s', Waiters.step s (.finish i) = some s' ∧ s'.recvs r = none := by
+  refine ⟨_, by simp [Waiters.step, h]; rfl, ?_⟩
+  simp [Waiters.unregister, ht]
 
 end OAP.C16
